@@ -826,6 +826,14 @@ func c04(c *Ctx) (*report.Result, error) {
 	} else if err != nil {
 		res.Undec("O4.15", "keep-alive obligations of O3.4", "", err.Error())
 	}
+	res.RuleDoc["O4.18"] = "a resumed source stream is not acknowledged past what it has re-delivered: the aggregated minimum is capped by the exclusive high watermark of the last batch this receiver incarnation has read (the clamp obligations of O3.2, imported) - after a source-stream reconnection the new receiver starts with an empty per-target table while the senders still report levels from the old stream; without the cap the ack jumps past tasks that are outstanding on a target the new receiver has not heard from, and a break of that target's stream loses them"
+	if r3, err := Registry["C03"](c); err == nil && r3 != nil {
+		if n := importObligations(res, r3, "O4.18", func(o report.Obligation) bool { return o.Rule == "O3.2" }); n < 2 {
+			res.Undec("O4.18", "clamp obligations of O3.2", "", fmt.Sprintf("%d imported, at least 2 expected", n))
+		}
+	} else {
+		res.Undec("O4.18", "clamp obligations of O3.2", "", "C03 rule set failed")
+	}
 	res.RuleDoc["O4.17"] = "what the sender translates is the target's overall confirmation: the watermark handed to AggregateUpTo in recvAck is the top-level InclusiveLowWatermark of the SyncReplicationState just received - not a per-priority lane's watermark (one lane can be ahead of a task the other has not applied) and not a value picked by a helper; everything at or below it is acknowledged and discarded"
 	checkAckWatermarkSource(c, res, "O4.17")
 	res.RuleDoc["O4.16"] = "an acknowledgement forwarded between proxy nodes travels on the stream of its own (target shard, source shard) pair (same analysis as O1.9 / O9.4): the owner of the source shard credits an incoming ack to the target of the stream it arrives on, so an ack that falls back to another target's stream - the natural shortcut when its own stream has just broken - is credited to a target that has not confirmed, and the aggregate then acknowledges that target's unconfirmed tasks"
